@@ -97,6 +97,17 @@ Theorem close_delimited_ends_connection :
     existsb is_close (evs redir x i) = true /\ c_closed (snd (nxt redir x i)) = true.
 Proof. exact close_delimited_ends_connection_proof. Qed.
 
+(** Early response: on an HTTP/1 frontend, when the backend's final response is relayed
+    while the request body is still arriving, the slot is not reset for a next request (the
+    leftover body bytes would be parsed as one: a second answer, or a smuggled request); the
+    connection ends with the response. *)
+Theorem early_response_ends_connection :
+  forall (redir : option N) (history : list input) (i : input),
+    let x := run_st redir (fresh, init_conn false) history in
+    existsb is_relay_end (evs redir x i) = true -> s_ropen (fst x) = true ->
+    existsb is_recycle (evs redir x i) = false /\ c_closed (snd (nxt redir x i)) = true.
+Proof. exact early_response_ends_connection_proof. Qed.
+
 (** 4. bounded_wait (invariant form): after any history a live session has its
     frontend timer armed, and whatever is queued and sendable has WRITABLE armed
     in interest and event, so the queued answer is flushed without waiting for
